@@ -57,7 +57,14 @@ def swap_job(comm, shape, groups, nprocs, start, walk, dtype, out):
     lc = sw.getLayout(cur)
     bufs[0][:lc.size] = sl.local_block(G, lc).ravel()
     a, b, c = 0, 1, 2
-    for (dst, usebuf) in walk:
+    kept = None            # layout name of an earlier source that a transpose with a buffer left intact in bufs[b]
+    for step in walk:
+        dst, usebuf = step[0], step[1]
+        fan = len(step) > 2 and step[2] and kept is not None
+        if fan:
+            # fan-out: the source a buffered transpose left intact is moved AGAIN, somewhere else (the previous result is given up)
+            a, b = b, a
+            cur = kept
         ls, ld = sw.getLayout(cur), sw.getLayout(dst)
         before = bufs[a][:ls.size].copy()
         bufs[b][:] = sl.sentinel(dtype)
@@ -66,6 +73,7 @@ def swap_job(comm, shape, groups, nprocs, start, walk, dtype, out):
         with warnings.catch_warnings():
             warnings.simplefilter("ignore")
             sw.transpose(bufs[a], bufs[b], cur, dst, bufs[c] if usebuf else None)
+        kept = cur if usebuf else None
         npv = list(sw.nProcs) if not isinstance(sw.nProcs, int) else [sw.nProcs]
         mc = list(sw.mpiCoords)
         dP = [int(x) for x in ld.nprocs]
@@ -87,7 +95,7 @@ def run_candidate(ctx, c, rng, events, meta, stats, walklen):
     start = rng.choice(names)
     walk = []
     for _ in range(walklen):
-        walk.append((rng.choice(names), rng.random() < 0.5))
+        walk.append((rng.choice(names), rng.random() < 0.5, rng.random() < 0.3))
     dtype = DTYPES[stats["n"] % 3]
     stats["n"] += 1
     n = int(np.prod(c["np"]))
